@@ -263,10 +263,15 @@ def fresh_rare_classes(run):
 def plan_C01(run):
     auth_small_models(run, [3, 5, 7, 23, 47, 59] if not run.thorough else [3, 5, 7, 23, 47, 59, 167, 227, 257])
     scen = CORPUS if os.path.exists(CORPUS) else None
+    # refinement: the concrete login machine implements the abstract protocol SessionAbs (Spec => Abs!ASpec, checked by TLC)
+    run.model("refine", "MCRefine", "MCRefine_%s.cfg" % ("47" if run.thorough else "23"), workers=4,
+              exhaustive_note="every key pair, honest and wrong-password clients: each concrete step is a step of the abstract protocol or a stutter; "
+                              "abstract invariants (agreement when both accept, no key on refusal, client only after server) on the mapped state")
     if run.thorough:
-        # the composed system: registration, login, world login with the keys each side derived, header traffic
-        run.model("session", "MCSession", "MCSession_q.cfg", workers=8, coverage=True, timeout=3400,
-                  exhaustive_note="composed Auth + Headers model: login in a small group, world login of the three expansions, header traffic both ways")
+        # the composed system: registration, login, world login with the keys each side derived, header traffic, reconnects
+        for cfg in ("MCSession_q.cfg", "MCSession_t.cfg"):
+            run.model("session-" + cfg[10:-4], "MCSession", cfg, workers=8, coverage=(cfg == "MCSession_q.cfg"), timeout=3400,
+                      exhaustive_note="composed Auth + Headers model: login in a small group, world login of the three expansions, header traffic both ways, reconnects")
         extra = fresh_rare_classes(run)
         base = [json.loads(l) for l in open(CORPUS)] if scen else []
         scen = run.scen_file("corpus", base + extra)
@@ -349,6 +354,13 @@ def tlaps_proof(run, module="ReconnectProof", prop="C05", what="Spec => [](OnlyC
     shutil.rmtree(d, ignore_errors=True)
     os.makedirs(d)
     shutil.copy(os.path.join(V, "spec", "tlaps", module + ".tla"), d)
+    # SANY first (tlapm's own parser resolves some precedence conflicts silently); TLAPS.tla comes from tlapm's library
+    std = "/opt/veriftools/tlapm/lib/tlapm/stdlib/TLAPS.tla"
+    if os.path.exists(std):
+        shutil.copy(std, d)
+        rcs, os_ = vlib.sh(["tla-sany", module + ".tla"], timeout=300, cwd=d)
+        if "Semantic processing of module " + module not in os_ or re.search(r"\*\*\* Errors|Fatal errors|conflict", os_):
+            raise ToolError("SANY rejects spec/tlaps/%s.tla:\n%s" % (module, os_[-1500:]))
     try:
         rc, o = vlib.sh(["tlapm", "--threads", "4", "--cleanfp", module + ".tla"], timeout=900, cwd=d)
     except ToolError:
